@@ -5,7 +5,7 @@ import random
 
 KW = {"select", "from", "join", "on", "where", "in", "union", "all", "as", "with", "insert", "into", "create", "table", "view",
       "update", "set", "merge", "using", "when", "matched", "then", "delete", "having", "group", "by", "and", "not", "exists", "inner",
-      "left", "cross", "or", "all"}
+      "left", "cross", "or", "all", "recursive"}
 
 
 class Opts:
@@ -27,6 +27,8 @@ class Opts:
         self.where_op = "in"
         self.merge_direct = False     # MERGE ... USING <table> when the source query is one table
         self.sub_with = False         # every derived table carries a WITH clause of its own: ( WITH zw AS ( Q ) SELECT c1 FROM zw )
+        self.recursive_kw = True      # a WITH clause with a recursive CTE is written WITH RECURSIVE (False: tsql, oracle, db2 have no such keyword)
+        self.cond_with = False        # every subquery in WHERE / ON / HAVING / the select list is a WITH query with two chained CTEs
         self.isub_form = "plain"      # where a select-list subquery sits: plain | else | then | func | func_in_expr
         self.names_pool = None        # list of alias names used in order (JSON-friendly form of names)
         self.alias_scope = "global"   # "local": alias numbering restarts in every query scope (aliases re-used across scopes)
@@ -92,6 +94,16 @@ class R:
         zw = self.ident("zw%d" % self.nw)
         return [self.kw("with"), zw, self.kw("as"), "("] + q + [")", self.kw("select"), self.ident("c1"), self.kw("from"), zw]
 
+    def wrap_cond(self, q):
+        """( WITH zv1 AS ( Q ), zv2 AS ( SELECT c1 FROM zv1 ) SELECT c1 FROM zv2 ): a condition subquery with CTEs of its own, one
+        of which reads the other"""
+        if not self.o.cond_with:
+            return q
+        self.nv = getattr(self, "nv", 0) + 1
+        a, b = self.ident("zv%da" % self.nv), self.ident("zv%db" % self.nv)
+        return [self.kw("with"), a, self.kw("as"), "("] + q + [")", ",", b, self.kw("as"), "(", self.kw("select"), self.ident("c1"), self.kw("from"), a, ")",
+                self.kw("select"), self.ident("c1"), self.kw("from"), b]
+
     def query(self, into=None):
         """parse branches until 'end'; returns token list"""
         branches = []
@@ -103,6 +115,8 @@ class R:
             e = ev["e"]
             if e in ("tbl", "cteref"):
                 cur["from"].append((ev["a"], self.with_alias(self.tname(ev), force=False)))
+            elif e == "selfref":
+                cur["from"].append((ev["a"], self.with_alias([self.ident((self.o.cte_names or {}).get(ev["c"], ev["c"]))], force=False)))
             elif e == "sub":
                 q = self.wrap_with(self.query())
                 cur["from"].append((ev["a"], self.with_alias(["("] + q + [")"])))
@@ -110,17 +124,17 @@ class R:
                 cur["from"].append((ev["a"], ["("] + self.from_list(self.paren_items()) + [")"]))
             elif e == "where":
                 if cur["where"] is not None:
-                    cur["where2"] = self.query()
+                    cur["where2"] = self.wrap_cond(self.query())
                 else:
-                    cur["where"] = self.query()
+                    cur["where"] = self.wrap_cond(self.query())
             elif e == "isub":
-                cur["isub"] = self.query()
+                cur["isub"] = self.wrap_cond(self.query())
             elif e == "having":
-                cur["having"] = self.query()
+                cur["having"] = self.wrap_cond(self.query())
             elif e == "on":
                 # the condition of the join just written: JOIN x ON c1 IN ( SELECT ... )
                 j, toks = cur["from"][-1][:2]
-                cur["from"][-1] = (j, toks, self.query())
+                cur["from"][-1] = (j, toks, self.wrap_cond(self.query()))
             elif e == "union":
                 branches.append(cur)
                 cur = {"from": [], "where": None, "isub": None, "having": None}
@@ -244,6 +258,8 @@ class R:
         w = []
         if ctes:
             w = [self.kw("with")]
+            if self.o.recursive_kw and any(ev["e"] == "selfref" for ev in self.p):
+                w.append(self.kw("recursive"))
             for i, c in enumerate(ctes):
                 w += ([","] if i else []) + c
         tgt = [self.ident(self.o.qualify), ".", self.ident("tgt")] if self.o.qualify else [self.ident("tgt")]
@@ -286,6 +302,8 @@ class R:
             e = ev["e"]
             if e in ("tbl", "cteref"):
                 cur["from"].append((ev["a"], self.with_alias(self.tname(ev), force=False)))
+            elif e == "selfref":
+                cur["from"].append((ev["a"], self.with_alias([self.ident((self.o.cte_names or {}).get(ev["c"], ev["c"]))], force=False)))
             elif e == "sub":
                 q = self.wrap_with(self.query())
                 cur["from"].append((ev["a"], self.with_alias(["("] + q + [")"])))
@@ -298,7 +316,7 @@ class R:
                     cur["where"] = self.query()
             elif e == "on":
                 j, toks = cur["from"][-1][:2]
-                cur["from"][-1] = (j, toks, self.query())
+                cur["from"][-1] = (j, toks, self.wrap_cond(self.query()))
             elif e == "end":
                 return cur
             else:
